@@ -545,7 +545,8 @@ let run_case (oc : out_channel) (c : case) : unit =
                let eq = if directed then edge_eqb_d keqb !h a b else edge_eqb_u N.compare a b in
                let c = edge_cmp N.compare a b in
                Printf.sprintf "ecmp eq=%d cmp=%s pcmp=Some(%s) rev=%s rr=%s" (b2i eq) (cmp_name c) (cmp_name c)
-                 (fmt_edge !h t1 u e1) (fmt_edge !h u t1 e1)
+                 (let ((rs, rt), re) = edge_reverse a in fmt_edge !h rs rt re)
+                 (let ((rs, rt), re) = edge_reverse (edge_reverse a) in fmt_edge !h rs rt re)
            | _, _ -> "none")
       | "thr" -> "ok"
       | "sched" ->
